@@ -585,6 +585,9 @@ def touched(spy):
     return list(object.__getattribute__(spy, "_touched"))
 
 
+FALSY_INCLUDE_CELLS = ["{@ none @}", "{@ 0 @}", "{@ [] @}", "{@ {} @}"]
+
+
 # ------------------------------------------------------------------ behavioural probe of the policy
 def behavioural_policy(cp_factory):
     """Classify each environment by what a fresh CellParser DOES with a missing name.
@@ -630,6 +633,13 @@ def behavioural_policy(cp_factory):
     out["env_repr_fails"] = shapes(
         ["{{ [zq_missing] }}", "{{ (zq_missing, 1) }}", "{{ {'a': zq_missing} }}", "x{{ [1, [(zq_missing,)]] }}"],
         lambda r: isinstance(r, str) and "Undefined" in r)
+    # rows excluded by a falsy include_if OBJECT: are their other cells instantiated first?
+    res = []
+    for inc in FALSY_INCLUDE_CELLS:
+        _, r = impl_sheet("row_id,type,from,include_if,loop_variable,message_text\n,send_message,start,,,hi\n"
+                          f',send_message,,"{inc}",,m {{{{ zq_missing }}}}\n,send_message,,,,tail\n', {"zq_s": "v"})
+        res.append("S" if r == ("ok", ["hi", "tail"]) else "E" if r[0] == "err" else "O")
+    out["falsy_include_if_skips_evaluation"] = True if set(res) == {"S"} else False if set(res) == {"E"} else "Mixed:" + "".join(res)
     out["native_result_checked"] = shapes(
         ["{@ zq_missing @}", "{@ [zq_missing] @}", "{@ (zq_missing, 1) @}", "{@ {'a': zq_missing} @}",
          "{@ [1, [(zq_missing,)]] @}", "{@ ['b', zq_obj.zq_missing] @}"],
@@ -1029,9 +1039,10 @@ def run(ctx):
     if m:
         x = parse_sexp(m.ask("(116 0)"))
         tab = {"env": "Strict" if x[0] == 0 else "Lenient", "native": "Strict" if x[1] == 0 else "Lenient",
-               "env_repr_fails": bool(x[2]), "native_repr_fails": bool(x[3]), "native_result_checked": bool(x[4])}
+               "env_repr_fails": bool(x[2]), "native_repr_fails": bool(x[3]), "native_result_checked": bool(x[4]),
+               "falsy_include_if_skips_evaluation": bool(x[5]) if len(x) > 5 else None}
         stats["translator_policy"] = tab
-        for k in ("env", "native", "env_repr_fails", "native_result_checked"):
+        for k in ("env", "native", "env_repr_fails", "native_result_checked", "falsy_include_if_skips_evaluation"):
             if beh[k] != tab[k]:
                 ctx.disagree("undefined policy: translator constant vs behavioural probe", k, tab[k], beh[k])
     # the same instance the rest of the run uses must behave like a fresh one
@@ -1199,6 +1210,26 @@ def run(ctx):
                              ("send_message", "", "", "tail")], ["hi", "tail"])
         check_planted_sheet("holder-in-excluded-row", [("send_message", "false", "", "m {{ [%s] }}" % miss), ("send_message", "", "", "tail")],
                             ["hi", "tail"])
+    # rows excluded by a falsy include_if OBJECT (not the string "false"): skipped, hence not evaluated (C16, last sentence)
+    for inc in FALSY_INCLUDE_CELLS:
+        for fam, body in [("row", [("send_message", inc, "", "m {{ nmae }}")]),
+                          ("row-native-cell", [("send_message", inc, "", "{@ nmae @}")]),
+                          ("loop-head", [("begin_for", inc, "x", "{@ nmae @}"), ("send_message", "", "", "in {{ nmae }}"), ("end_for", "", "", "")]),
+                          ("block-head", [("begin_block", inc, "", ""), ("send_message", "", "", "in {{ nmae }}"), ("end_block", "", "", "")])]:
+            v.coverage["evaluations"] += 1
+            cnt("planted_sheet_falsy-include_if-" + fam)
+            buf = io.StringIO()
+            w = csv.writer(buf, lineterminator="\n")
+            w.writerow(HEADER)
+            w.writerow(["", "send_message", "start", "", "", "hi"])
+            for typ, inc_, lv, main in body:
+                w.writerow(["", typ, "", inc_, lv, main])
+            w.writerow(["", "send_message", "", "", "", "tail"])
+            csvtext = buf.getvalue()
+            _, res = impl_sheet(csvtext, dict(base_ctx))
+            if res != ("ok", ["hi", "tail"]):
+                fail("falsy-include_if-row-evaluated", f"sheet {fam}: include_if = {inc} excludes the row, yet FlowParser gives {res!r} for\n{csvtext}",
+                     dict(fn="sheetplanted", csv=csvtext, ctx=dict(base_ctx), expect=["hi", "tail"], produced=repr(res)))
     check_planted_sheet("loop-over-defined-holder", [("begin_for", "", "x", "{@ [name, (n, 'b')] @}"), ("send_message", "", "", "it {{ x }}"),
                                                      ("end_for", "", "", "")], ["hi", "it Ann", "it (2, 'b')"])
     check_planted_sheet("loop-over-defined-tuple", [("begin_for", "", "x", "{@ (name, n) @}"), ("send_message", "", "", "it {{ x }}"),
